@@ -83,7 +83,7 @@ theorem init_sysInv : SysInv Sys.init := by
   have hL : Link ({} : Ep) ({} : Ep) #[] #[] := by
     refine ⟨by simp, by simp, ⟨by simp, by simp, ?_, by simp⟩, by simp, ?_⟩
     · intro t ht; simp at ht
-    · intro s; simp [Rcv.readOn, onStream]
+    · intro s; simp [onStream]
   cases x <;> exact ⟨init_inv, hL⟩
 
 theorem read_rcvStep (e : Ep) (sid : Nat) (sq wlog : List Msg) (h : RcvRel sq e.rcv) (hp : PrefixOk wlog e.rcv)
